@@ -18,7 +18,9 @@
 (***************************************************************************)
 EXTENDS Naturals, Sequences, FiniteSets, TLC, Json
 
-CONSTANTS GLen, MaxDecl, EmitRecords
+CONSTANTS GLen, MaxDecl, EmitRecords,
+          SplitOnly      \* TRUE: only upgrades in which an app has two pending evolutions and an
+                         \* evolution-level declaration may order something between them (C08 part 3)
 
 VARIABLES epending,   \* [EApps -> 0..2]
           gapplied,   \* [GApps -> 0..GLen]
@@ -58,6 +60,9 @@ Init == /\ epending \in [EApps -> 0..2]
         \* at most one md in each direction (Django rejects circular migration graphs itself)
         /\ Cardinality({ d \in decls : d[1] = "md" }) <= 1
         /\ hollow \in {{}} \cup { {u} : u \in UNION { PendingEvos(a) : a \in EApps } }
+        /\ (SplitOnly => /\ \E a \in EApps : epending[a] = 2
+                         /\ decls # {} /\ \A d \in decls : d[1] \in {"eam", "ebm", "eae"}
+                         /\ gapplied = [g \in GApps |-> 1])
 Next == UNCHANGED vars
 Spec == Init /\ [][Next]_vars
 
